@@ -6,6 +6,19 @@ namespace Lentil
 
 variable {K : Type}
 
+/-- per-axis closed form of the generated pad index block: (src start, src stop, dst start, dst stop). (Same statement as
+C20's `padIdx2_eq` in Lemmas/Geometry.lean, which cannot be imported here: Model/Geometry and Model/Plane both declare
+`Lentil.firstTrue`.) -/
+def padAxisB (m S : Int) : Int × Int × Int × Int :=
+  if S - m ≤ 0 then (m / 2 - S / 2, m / 2 - S / 2 + S, 0, S) else (0, m, S / 2 - m / 2, S / 2 - m / 2 + m)
+
+theorem padIdx2_closed (m0 m1 S0 S1 : Int) :
+    Gen.padIdx2 m0 m1 S0 S1 =
+      (((padAxisB m0 S0).1, (padAxisB m0 S0).2.1, (padAxisB m1 S1).1, (padAxisB m1 S1).2.1),
+       ((padAxisB m0 S0).2.2.1, (padAxisB m0 S0).2.2.2, (padAxisB m1 S1).2.2.1, (padAxisB m1 S1).2.2.2)) := by
+  unfold Gen.padIdx2 padAxisB
+  by_cases h0 : S0 - m0 ≤ 0 <;> by_cases h1 : S1 - m1 ≤ 0 <;> simp [h0, h1]
+
 /-- zero-padding (array no larger than the target on both axes): the array's origin sample `floor(n/2)` lands on the
 target's origin sample `floor(S/2)`, zeros elsewhere -/
 theorem padTo_get [Zero K] (a : Arr K) (S0 S1 : Int) (h0 : a.s0 ≤ S0) (h1 : a.s1 ≤ S1) (i j : Int) :
@@ -14,7 +27,8 @@ theorem padTo_get [Zero K] (a : Arr K) (S0 S1 : Int) (h0 : a.s0 ≤ S0) (h1 : a.
          decide (S1 / 2 - a.s1 / 2 ≤ j) && decide (j < S1 / 2 - a.s1 / 2 + a.s1)
       then a.get (i - (S0 / 2 - a.s0 / 2)) (j - (S1 / 2 - a.s1 / 2)) else 0 := by
   unfold padTo
-  by_cases e0 : S0 - a.s0 ≤ 0 <;> by_cases e1 : S1 - a.s1 ≤ 0 <;> simp only [e0, e1, if_true, if_false]
+  simp only [padIdx2_closed, padAxisB]
+  by_cases e0 : S0 - a.s0 ≤ 0 <;> by_cases e1 : S1 - a.s1 ≤ 0 <;> simp only [e0, e1, if_true, if_false, inRegion]
   · have : a.s0 = S0 := by omega
     have : a.s1 = S1 := by omega
     simp_all
